@@ -8,6 +8,9 @@
 3. Cases : real HashRing built by add_node/remove_node in both orders, observed through the hook;
            get_replicas / get_replicas_with_rf / get_primary for 12 keys; the ring plus one node;
            real GossipRouter::new / from_config and GossipState::queue_deltas for every sender.
+   Also  : membership changing at run time (dyn): a shared ring constructed from the initial members, joins and leaves
+           through add_node/remove_node + update_peer/remove_peer on every router, is_responsible; per epoch the same
+           rules, between epochs only keys that gain or lose the node move (PlaceTrace!DynVerdict).
 4. TV    : PlaceTrace recomputes Replicas and Targets from the OBSERVED ring and compares.
 """
 import os
@@ -48,6 +51,11 @@ def run(tier):
     tr = os.path.join(wd, "xproc.ndjson")
     vlib.vh(["place", "xproc", "--seed", vlib.seed() + 40, "--n", 24 if thorough else 6, "--out", tr])
     vlib.validate_runs(rep, "PlaceTrace", "PlaceTrace", tr, wd, "across_processes", describe=describe, strip=())
+    os.remove(tr)
+    # membership changing while the cluster runs: one shared ring, update_peer / remove_peer on every router, is_responsible
+    tr = os.path.join(wd, "dyn.ndjson")
+    vlib.vh(["place", "dyn", "--seed", vlib.seed() + 7, "--n", 2000 if thorough else 300, "--out", tr])
+    vlib.validate_runs(rep, "PlaceTrace", "PlaceTrace", tr, wd, "membership_at_run_time", describe=describe, strip=())
     os.remove(tr)
     rep.cov["distinct_nontrivial"] = rep.cov["traces_validated_against_impl"]
     rep.cov["rule"] = ("a case is one membership (1-6 nodes, ids contiguous or not) built in two join/leave orders with a vnode "
